@@ -206,6 +206,45 @@ def judgeKafka : Judge := liftJudge fun input obs => do
            tags := tags, nontrivial := oldOps && wait, sig := sig,
            note := match badOld with | some (_, (o, _)) => o.panic | none => optStr obs "note" }
 
+/-! ### validatorgen: the Validator's basicAuth cache across generations -/
+
+def judgeValidatorGen : Judge := liftJudge fun input obs => do
+  let mode := optStr input "mode" "?"
+  let err := optStr obs "err"
+  let tags0 := ["mode:" ++ mode]
+  if err == "bad-input" || err == "bad-spec" || err == "init-panic" || err == "budget-exhausted" then
+    return { agree := true, spec := true, tags := tags0 ++ ["skipped:" ++ err], nontrivial := false, note := optStr obs "note" }
+  if err == "inherit-panic" || err == "close-panic" then
+    return { agree := false, spec := false, tags := tags0 ++ [err], sig := "panic:" ++ err ++ ":Validator", note := optStr obs "note" }
+  if let some m := obsPanic obs then
+    return { agree := false, spec := false, sig := "panic:harness:Validator", note := m }
+  let stepsIn := (← getArr input "steps").toList
+  let auths := stepsIn.map fun s => optInt s "auth"
+  let hdrs := stepsIn.map fun s => optInt s "hdr"
+  -- per update: is the basicAuth section unchanged?
+  let same : List Bool := (auths.zip (auths.drop 1)).map fun (a, b) => a == b
+  let got := (← getArr obs "steps").toList
+  let curAlive := got.map fun s => optStr s "curAlive"
+  let prevDead := got.map fun s => optStr s "prevDead"
+  -- model: fresh cache per generation ⇒ alive after every step
+  let want := vTrace false vInit same
+  let lenOk := got.length == stepsIn.length && (stepsIn.isEmpty || want.length == got.length)
+  let agree := lenOk && (curAlive.zip want).all (fun (g, w) => (g == "alive") == w) &&
+    (prevDead.drop 1).all (· == "dead") && got.all (fun s => !optBool s "shared")
+  let firstDead := (curAlive.zipIdx.find? (fun (g, _) => g == "dead")).map (·.2)
+  let spec := firstDead.isNone && lenOk
+  let sig := if firstDead.isSome then "closed-by-previous-generation:Validator:" ++ mode
+    else if !lenOk then "truncated:Validator" else ""
+  let hdrOnly := ((auths.zip (auths.drop 1)).zip (hdrs.zip (hdrs.drop 1))).any fun ((a, b), (c, d)) => a == b && c != d
+  let tags := tags0 ++ (if same.any id then ["update-with-unchanged-basicAuth"] else []) ++
+    (if same.any (!·) then ["update-with-changed-basicAuth"] else []) ++
+    (if hdrOnly then ["header-rule-only-edit"] else []) ++
+    (if got.any (fun s => optBool s "shared") then ["cache-shared-with-previous-generation"] else []) ++
+    ["updates:" ++ toString same.length]
+  return { agree := agree, spec := spec, expected := Json.arr (want.map Json.bool).toArray, tags := tags,
+           nontrivial := same.any id, sig := sig,
+           note := match firstDead with | some i => "current generation's user cache dead after step " ++ toString i | none => optStr obs "note" }
+
 /-! ### mux -/
 
 /-- Parse state: the filter table built so far (ids are positions). -/
@@ -448,7 +487,7 @@ def judgeRegistry : Judge := liftJudge fun input obs => do
            tags := tags, nontrivial := (want.any (·.1 == "updated")) && optInt obs "bgReads" > 0, sig := sig }
 
 def judges : List (String × Judge) :=
-  [("filters", judgeFilters), ("kafka", judgeKafka), ("mux", judgeMux), ("muxhist", judgeMuxHist), ("registry", judgeRegistry)]
+  [("filters", judgeFilters), ("kafka", judgeKafka), ("validatorgen", judgeValidatorGen), ("mux", judgeMux), ("muxhist", judgeMuxHist), ("registry", judgeRegistry)]
 
 end Driver.C11
 
